@@ -132,8 +132,12 @@ func errorsCheck(c *Ctx, cs *expCase) string {
 			c.Violate(Violation{Oracle: "errors", Class: class, Pointer: ptr, Detail: detail, Features: feat, Case: cc})
 			outcome = class
 		}
-		if o.Panic != "" || o.Budget {
-			outcome = "crash-or-runaway(C04)"
+		if o.Panic != "" {
+			report("panic-instead-of-an-error-or-a-result", "", o.Panic)
+			return
+		}
+		if o.Budget {
+			outcome = "runaway(C04)"
 			return
 		}
 		if !cs.Opts.Cont {
@@ -306,7 +310,7 @@ func c08Run(c *Ctx) {
 						if t == -1 && entry == entDefinition && g0.Place[0] == 0 {
 							continue // N0 itself is the root definition: there is no entry reference
 						}
-						for _, mode := range []int{brkNoPointer, brkNoDoc, brkString, brkNumber, brkBool, brkArray, brkCaseName, brkUnsetMember} {
+						for _, mode := range []int{brkNoPointer, brkNoDoc, brkString, brkNumber, brkBool, brkArray, brkCaseName, brkUnsetMember, brkThroughBool} {
 							g := g0.clone()
 							g.Breaks = map[int]int{t: mode}
 							if !mine(g, "") {
